@@ -115,7 +115,7 @@ def directory_case(draw):
             "spelling": [draw(st.sampled_from(SPELLINGS)), draw(st.sampled_from(SPELLINGS))]}
 
 
-def build_directory(case):
+def build_directory(case, rename_end=False):
     d = os.path.realpath(env.fresh_dir())
     inputs = os.path.join(d, "inputs")
     os.makedirs(inputs)
@@ -152,7 +152,8 @@ def build_directory(case):
         ag = os.path.join(inputs, "%s%s_AA.gro" % (nm, dot))
         ai = os.path.join(inputs, "%s%s_AA.itp" % (nm, dot))
         write_itp(cg, sp["start"])
-        write_itp(ai, sp["end"])
+        # with explicit triples the two resolutions need not use the same molecule name
+        write_itp(ai, dict(sp["end"], name=nm + "_AA") if rename_end and k % 2 == 0 else sp["end"])
         indep.write_gro(ag, "end molecule " + nm, spec_records(sp["end"]), [5.0, 5.0, 5.0])
         triples[nm] = [cg, ag, ai]
     listing = [p for t in triples.values() for p in t]
@@ -392,7 +393,7 @@ def run_main(argv, seed, cwd=None):
 
 
 def check_cli(case):
-    D = build_directory(case)
+    D = build_directory(case, rename_end=case["mode"] == "mol" and case["seed"] % 3 == 0)
     complete = [nm for nm in sorted(D["triples"]) if nm not in D["incomplete"]]
     mode = case["mode"]
     explicit = [nm for nm in ("SP%d" % k for k in case["known"]) if nm in complete]
@@ -482,7 +483,8 @@ def check_cli(case):
         Alignment.STEPS_FACTOR = old_steps
     return {"nontrivial": len(species) >= 2 and D["ndistractors"] >= 2,
             "classes": ["mode:" + mode, "out:" + case["outmode"], "scale:%s" % ("0.5" if case["scale"] == 0.5 else "other"),
-                        "spelling:same" if sp_mol == sp_auto or not (explicit and auto) else "spelling:differs"],
+                        "spelling:same" if sp_mol == sp_auto or not (explicit and auto) else "spelling:differs",
+                        "end-name:differs" if case["mode"] == "mol" and case["seed"] % 3 == 0 else "end-name:same"],
             "sample": {"argv": [os.path.basename(a) if os.sep in a else a for a in argv], "species_mapped": len(species)}}
 
 
